@@ -26,11 +26,12 @@ def run(tier, seed):
                 'match_desc_ok': '%d strictly descending symbolic integer keys, symbolic lookup value' % ln,
                 'match_exact_ok': '%d symbolic integer keys in -3..3 (duplicates allowed), symbolic lookup value' % ln})
         h = Harness(ck, 'c19_misc', src.replace('__LEN__', '3').replace('__CRIT__', '0')); hs.append(h)
-        batch.add(h, T, only=['index_ok', 'match_text_ok', 'match_types_ok', 'lookup_ok'], bounds={
+        batch.add(h, T, only=['index_ok', 'match_text_ok', 'match_text_approx_ok', 'match_types_ok', 'lookup_ok'], bounds={
             'index_ok': 'array shapes 1..3 x 1..3 (selectors), symbolic row / column in -2..5 (0 excluded)',
-            'match_text_ok': '8 text keys (case variants, ? * ~ wildcards) against a 10-element mixed-type vector',
+            'match_text_ok': '12 text keys (case variants, ? * ~ wildcards) against an 11-element mixed-type vector',
+            'match_text_approx_ok': 'approximate modes 1 / -1 on 2..5 sorted text keys x 10 lookup texts of mixed letter case',
             'match_types_ok': '6 keys of every type against a 10-element mixed-type vector',
-            'lookup_ok': '5 key columns x 12 keys x result column 1..4 x exact/approximate: VLOOKUP, HLOOKUP, LOOKUP vs INDEX(MATCH)'})
+            'lookup_ok': '5 key columns x 12 keys x result column 1..5 x exact/approximate x 3x3 and 2x4 tables: VLOOKUP, HLOOKUP, LOOKUP vs INDEX(MATCH)'})
         for c in range(13):
             h = Harness(ck, 'c19_crit%d' % c, src.replace('__LEN__', '3').replace('__CRIT__', str(c))); hs.append(h)
             batch.add(h, T, only=['criteria_ok'], bounds='criterion #%d, every triple of elements from a 10-entry mixed pool (plus a fixed fourth): COUNTIF, SUMIF, AVERAGEIF' % c)
